@@ -1,7 +1,11 @@
 /-
 C04, sparse class: one step and whole histories (assembly of the per-key refinements).
 -/
-import PyttbModel.Lemmas.MutArraySparseRegion
+import PyttbModel.Lemmas.MutArraySparseRead
+set_option linter.unusedSimpArgs false
+set_option linter.unusedVariables false
+set_option linter.unusedSectionVars false
+
 namespace Pyttb
 
 variable {α : Type}
@@ -17,8 +21,9 @@ non-empty linear slice (the only linear writes the class supports); every right-
 except an empty array.  Reads: subscript arrays and linear keys on a tensor of order ≥ 1
 (an integer not below `-cells`).  Region keys: writes of a scalar (zero included) through
 integers, slices and index lists, where every NEW mode is addressed by an integer, a list
-or a slice with stop ≥ 1; reads of a single element (all key elements integers in
-`-extent .. extent-1`). -/
+or a slice with stop ≥ 1; reads with integers in `-extent .. extent-1`, slices that select
+at least one index and index lists that are non-empty, in range and duplicate-free (a
+scalar comes back when every key element is an integer, a tensor otherwise). -/
 def IdxOp.provedAtSparse (s : List Nat) : IdxOp α → Bool
   | .write (.subs _) rhs => !rhs.isEmptyValue
   | .write (.lin i) rhs =>
@@ -37,7 +42,8 @@ def IdxOp.provedAtSparse (s : List Nat) : IdxOp α → Bool
   | .read (.lin i) => !s.isEmpty && decide (-(numel s : Int) ≤ i)
   | .read (.linSlice _ _ _) => !s.isEmpty
   | .read (.linList _) => !s.isEmpty
-  | .read (.region parts) => !parts.isEmpty && intsInRange s parts
+  | .read (.region parts) =>
+    !parts.isEmpty && (intsInRange s parts || (readKeyOk s parts && !parts.all RPart.isInt))
 
 def ProvedHistS : MArr α → List (IdxOp α) → Prop
   | _, [] => True
@@ -92,8 +98,11 @@ theorem Sparse.getItem_refines {S : Sparse α} {m : MArr α} (h : SRel S m) (key
   cases key with
   | subs rows => exact Sparse.getItem_subs h rows
   | region parts =>
-    simp only [IdxOp.provedAtSparse, Bool.and_eq_true, Bool.not_eq_true', List.isEmpty_eq_false_iff] at hp
-    exact Sparse.getItem_ints h parts hp.1 hp.2
+    simp only [IdxOp.provedAtSparse, Bool.and_eq_true, Bool.not_eq_true', List.isEmpty_eq_false_iff,
+      Bool.or_eq_true] at hp
+    rcases hp.2 with h1 | h1
+    · exact Sparse.getItem_ints h parts hp.1 h1
+    · exact Sparse.getItem_tensor h parts hp.1 h1.1 h1.2
   | lin i =>
     simp only [IdxOp.provedAtSparse, Bool.and_eq_true, Bool.not_eq_true', List.isEmpty_eq_false_iff,
       decide_eq_true_eq] at hp
